@@ -287,11 +287,13 @@ func runB1(p *an.Prog, r *an.Result) {
 		}
 		// the renderer walks its list forward too
 		rf := false
-		an.EachInstr(fn, func(in ssa.Instruction) {
-			if ia, ok := in.(*ssa.IndexAddr); ok && isForwardRangeIndex(ia.Index) {
-				rf = true
-			}
-		})
+		for _, f := range unitWithHelpers(p, fn) {
+			an.EachInstr(f, func(in ssa.Instruction) {
+				if ia, ok := in.(*ssa.IndexAddr); ok && isForwardRangeIndex(ia.Index) {
+					rf = true
+				}
+			})
+		}
 		if rf {
 			r.OK(name, "branches tried by a forward range", an.FuncPos(fn), "index starts at 0 and steps by +1")
 		} else {
@@ -340,6 +342,19 @@ func runB2(p *an.Prog, r *an.Result) {
 		}
 	}
 	if fn == nil {
+		// by role: the function of the case renderer's unit that evaluates expressions and judges with values.Equal
+		if b := blockByName(GetRoles(p), "case"); b != nil && b.Renderer != nil {
+			for _, f := range unitWithHelpers(p, b.Renderer) {
+				if f != b.Renderer && len(callsNamed(f, "(render.Context).Evaluate")) > 0 && len(callsNamed(f, "values.Equal")) > 0 {
+					fn = f
+				}
+			}
+			if fn == nil && len(callsNamed(b.Renderer, "values.Equal")) > 0 {
+				fn = b.Renderer
+			}
+		}
+	}
+	if fn == nil {
 		r.Bad("-", "case test not found", token.NoPos, "the method that compares the case subject with the when values was not resolved")
 		return
 	}
@@ -354,7 +369,7 @@ func runB2(p *an.Prog, r *an.Result) {
 		subj, when := false, false
 		for _, a := range c.Call.Args {
 			for _, o := range an.Origins(a, an.StepValue) {
-				if par, ok := o.(*ssa.Parameter); ok && par == fn.Params[1] {
+				if par, ok := o.(*ssa.Parameter); ok && par.Parent() == fn && isEmptyInterface(par.Type()) {
 					subj = true
 				}
 				if ex, ok := o.(*ssa.Extract); ok {
@@ -389,7 +404,11 @@ func runB2(p *an.Prog, r *an.Result) {
 	// is passed over without having been handed to Equal
 	equalTrue := func(cond ssa.Value, taken bool) bool {
 		c := an.CallOf(cond)
-		return taken && c != nil && an.CallName(c) == "values.Equal"
+		if taken && c != nil && an.CallName(c) == "values.Equal" {
+			return true
+		}
+		// the else clause as data: a boolean field of the clause record that is set only for clauses not named "when"
+		return taken && elseFlagField(p, cond)
 	}
 	an.EachInstr(fn, func(in ssa.Instruction) {
 		ret, ok := in.(*ssa.Return)
@@ -470,6 +489,8 @@ func runB3(p *an.Prog, r *an.Result) {
 	}
 	uses, okUses := 0, true
 	var notOnFalse bool
+	// the polarity values: loads of the capture, and the parameter of a helper of the package that is handed one
+	var polVals []ssa.Value
 	if pol.Referrers() != nil {
 		for _, u := range *pol.Referrers() {
 			ld, ok := u.(*ssa.UnOp)
@@ -477,43 +498,67 @@ func runB3(p *an.Prog, r *an.Result) {
 				okUses = false
 				continue
 			}
-			if ld.Referrers() == nil {
-				continue
+			polVals = append(polVals, ld)
+		}
+	}
+	callsNot := func(b *ssa.BasicBlock) bool {
+		for _, in := range b.Instrs {
+			if c, ok := in.(*ssa.Call); ok && an.CallName(&c.Call) == "expressions.Not" {
+				return true
 			}
-			for _, uu := range *ld.Referrers() {
-				switch x := uu.(type) {
-				case *ssa.DebugRef:
-				case *ssa.If:
-					uses++
-					// Not(expr) is called exactly on the polarity-false edge
-					falseSucc := x.Block().Succs[1]
-					for _, in := range falseSucc.Instrs {
-						if c, ok := in.(*ssa.Call); ok && an.CallName(&c.Call) == "expressions.Not" {
-							notOnFalse = true
-						}
-					}
-					for _, in := range x.Block().Succs[0].Instrs {
-						if c, ok := in.(*ssa.Call); ok && an.CallName(&c.Call) == "expressions.Not" {
-							okUses = false
-						}
-					}
-				case *ssa.UnOp:
-					// !polarity
-					if x.Op == token.NOT && x.Referrers() != nil {
-						for _, u3 := range *x.Referrers() {
-							if ifi, ok := u3.(*ssa.If); ok {
-								uses++
-								for _, in := range ifi.Block().Succs[0].Instrs {
-									if c, ok := in.(*ssa.Call); ok && an.CallName(&c.Call) == "expressions.Not" {
-										notOnFalse = true
-									}
-								}
+		}
+		return false
+	}
+	for i := 0; i < len(polVals) && i < 16; i++ {
+		ld := polVals[i]
+		if ld.Referrers() == nil {
+			continue
+		}
+		for _, uu := range *ld.Referrers() {
+			switch x := uu.(type) {
+			case *ssa.DebugRef:
+			case *ssa.If:
+				uses++
+				// Not(expr) is called exactly on the polarity-false edge
+				if callsNot(x.Block().Succs[1]) {
+					notOnFalse = true
+				}
+				if callsNot(x.Block().Succs[0]) {
+					okUses = false
+				}
+			case *ssa.UnOp:
+				// !polarity
+				if x.Op == token.NOT && x.Referrers() != nil {
+					for _, u3 := range *x.Referrers() {
+						if ifi, ok := u3.(*ssa.If); ok {
+							uses++
+							if callsNot(ifi.Block().Succs[0]) {
+								notOnFalse = true
+							}
+							if callsNot(ifi.Block().Succs[1]) {
+								okUses = false
 							}
 						}
 					}
-				default:
+				} else {
 					okUses = false
 				}
+			case *ssa.Call:
+				callee := x.Call.StaticCallee()
+				handed := false
+				if callee != nil && p.InModule(callee) && callee.Pkg == comp.Pkg && len(callee.Params) == len(x.Call.Args) {
+					for k, a := range x.Call.Args {
+						if a == ld {
+							polVals = append(polVals, callee.Params[k])
+							handed = true
+						}
+					}
+				}
+				if !handed {
+					okUses = false
+				}
+			default:
+				okUses = false
 			}
 		}
 	}
@@ -523,7 +568,10 @@ func runB3(p *an.Prog, r *an.Result) {
 		r.Bad(name, "polarity wiring", an.FuncPos(comp), fmt.Sprintf("the captured polarity must have exactly one use - deciding whether the first test is wrapped in Not (uses: %d, only-branch uses: %v, Not on the false edge: %v)", uses, okUses, notOnFalse))
 	}
 	// the result of Not feeds the first branch test (position 0 of the branch literal)
-	notCalls := callsNamed(comp, "expressions.Not")
+	var notCalls []*ssa.Call
+	for _, cu := range unitWithHelpers(p, comp) {
+		notCalls = append(notCalls, callsNamed(cu, "expressions.Not")...)
+	}
 	if len(notCalls) == 1 {
 		// its argument is the parsed block expression
 		fromParse := false
@@ -1304,6 +1352,39 @@ func runB9(p *an.Prog, r *an.Result) {
 	fn := t.Renderer
 	name := roles.Label(fn)
 	rf := callsNamed(fn, "(render.Context).RenderFile")
+	// the renderer may delegate the second half (compose the name, render the file, write the result)
+	// to a helper of its package: its parameters then stand for the arguments of the one call
+	rfFn := fn
+	up := func(v ssa.Value) ssa.Value { return v }
+	if len(rf) == 0 {
+		for _, h := range unitWithHelpers(p, fn) {
+			if h == fn || h.Pkg != fn.Pkg {
+				continue
+			}
+			if hr := callsNamed(h, "(render.Context).RenderFile"); len(hr) > 0 {
+				var sites []*ssa.Call
+				an.EachInstr(fn, func(in ssa.Instruction) {
+					if c, ok := in.(*ssa.Call); ok && c.Call.StaticCallee() == h {
+						sites = append(sites, c)
+					}
+				})
+				if len(sites) == 1 {
+					rf, rfFn = hr, h
+					site := sites[0]
+					up = func(v ssa.Value) ssa.Value {
+						if par, ok := v.(*ssa.Parameter); ok {
+							for i, pp := range h.Params {
+								if pp == par && i < len(site.Call.Args) {
+									return site.Call.Args[i]
+								}
+							}
+						}
+						return v
+					}
+				}
+			}
+		}
+	}
 	if len(rf) != 1 {
 		r.Bad(name, "RenderFile calls", an.FuncPos(fn), fmt.Sprintf("expected one RenderFile call, found %d", len(rf)))
 		return
@@ -1371,7 +1452,7 @@ func runB9(p *an.Prog, r *an.Result) {
 				}
 			}
 			// rel: the checked string assertion of the evaluated argument
-			if ex, ok := bind(elems[1]).(*ssa.Extract); ok && ex.Index == 0 {
+			if ex, ok := up(bind(elems[1])).(*ssa.Extract); ok && ex.Index == 0 {
 				if ta, ok := ex.Tuple.(*ssa.TypeAssert); ok && ta.CommaOk {
 					if b, ok := ta.AssertedType.(*types.Basic); ok && b.Kind() == types.String {
 						for _, o := range an.Origins(ta.X, an.StepValue) {
@@ -1427,10 +1508,10 @@ func runB9(p *an.Prog, r *an.Result) {
 	}
 	// the rendered string is what is written
 	okWrite := false
-	an.EachCall(fn, func(ci ssa.CallInstruction) {
+	an.EachCall(rfFn, func(ci ssa.CallInstruction) {
 		c := ci.Common()
 		if an.CallName(c) == "io.WriteString" && len(c.Args) == 2 {
-			if ex, ok := c.Args[1].(*ssa.Extract); ok && ex.Tuple == ssa.Value(rf[0]) && ex.Index == 0 && c.Args[0] == ssa.Value(fn.Params[0]) {
+			if ex, ok := c.Args[1].(*ssa.Extract); ok && ex.Tuple == ssa.Value(rf[0]) && ex.Index == 0 && up(c.Args[0]) == ssa.Value(fn.Params[0]) {
 				okWrite = true
 			}
 		}
@@ -2593,4 +2674,90 @@ func isLoopFunction(f *ssa.Function) bool {
 		}
 	}
 	return false
+}
+
+// isEmptyInterface: t is `any` (an interface without methods).
+func isEmptyInterface(t types.Type) bool {
+	i, ok := t.Underlying().(*types.Interface)
+	return ok && i.NumMethods() == 0
+}
+
+// elseFlagField: cond is the load of a boolean field of a struct of the tags package, and every store into
+// that field anywhere in the module stores a constant - true only where a comparison of a string with "when"
+// has come out unequal (the clause is not a when clause: it is the else of a case).
+func elseFlagField(p *an.Prog, cond ssa.Value) bool {
+	ld, ok := an.Strip(cond).(*ssa.UnOp)
+	if !ok || ld.Op != token.MUL {
+		if f, ok := an.Strip(cond).(*ssa.Field); ok {
+			return elseFlagStores(p, f.X.Type(), f.Field)
+		}
+		return false
+	}
+	fa, ok := ld.X.(*ssa.FieldAddr)
+	if !ok {
+		return false
+	}
+	pt, ok := fa.X.Type().Underlying().(*types.Pointer)
+	if !ok {
+		return false
+	}
+	return elseFlagStores(p, pt.Elem(), fa.Field)
+}
+
+func elseFlagStores(p *an.Prog, st types.Type, field int) bool {
+	n := an.NamedOf(st)
+	if n == nil || n.Obj().Pkg() == nil || !an.IsModulePkg(n.Obj().Pkg()) {
+		return false
+	}
+	stu, ok := n.Underlying().(*types.Struct)
+	if !ok || field >= stu.NumFields() {
+		return false
+	}
+	if b, ok := stu.Field(field).Type().Underlying().(*types.Basic); !ok || b.Kind() != types.Bool {
+		return false
+	}
+	trues, ok := 0, true
+	for _, f := range p.Funcs {
+		an.EachInstr(f, func(in ssa.Instruction) {
+			s, isStore := in.(*ssa.Store)
+			if !isStore {
+				return
+			}
+			fa, isFA := s.Addr.(*ssa.FieldAddr)
+			if !isFA || fa.Field != field {
+				return
+			}
+			pt, isP := fa.X.Type().Underlying().(*types.Pointer)
+			if !isP || !types.Identical(pt.Elem(), st) {
+				return
+			}
+			v, isC := an.ConstBool(s.Val)
+			if !isC {
+				ok = false
+				return
+			}
+			if !v {
+				return
+			}
+			trues++
+			notWhen := false
+			for _, g := range an.GuardsAt(s.Block()) {
+				b, isB := g.Cond.(*ssa.BinOp)
+				if !isB || (b.Op != token.EQL && b.Op != token.NEQ) {
+					continue
+				}
+				cs, isS := an.ConstString(b.Y)
+				if !isS {
+					cs, isS = an.ConstString(b.X)
+				}
+				if isS && cs == "when" && g.True == (b.Op == token.NEQ) {
+					notWhen = true
+				}
+			}
+			if !notWhen {
+				ok = false
+			}
+		})
+	}
+	return ok && trues > 0
 }
